@@ -285,6 +285,41 @@ func ruleScanClass(c *Ctx) []Ob {
 				for _, v := range cs {
 					have[v] = true
 				}
+				// the value merged from the arms of a kind switch (an expanded helper): the kinds of the arms that give a
+				// type pointer, the other arms giving 0
+				if phi, isPhi := st.Val.(*ssa.Phi); isPhi && cs == nil {
+					okPhi := true
+					for i, e := range phi.Edges {
+						if z, isC := constInt(e); isC && z == 0 {
+							continue
+						}
+						if ec, isCall := e.(*ssa.Call); !isCall || ec.Call.StaticCallee() == nil || ec.Call.StaticCallee().Name() != "rtTypePtr" {
+							okPhi = false
+							continue
+						}
+						pcs, psubj := caseSet(phi.Block().Preds[i], "")
+						if pcs == nil {
+							okPhi = false
+						}
+						for _, v := range pcs {
+							have[v] = true
+						}
+						subj = psubj
+					}
+					if okPhi && len(domCondsKindOnly(b)) == 0 {
+						var missing []string
+						for n, v := range need {
+							if !have[v] {
+								missing = append(missing, n)
+							}
+						}
+						sort.Strings(missing)
+						isKind := strings.Contains(subj, "call:") || strings.Contains(subj, "Kind")
+						s.check(len(missing) == 0 && isKind, "newTType:MallocAbiType", c.InstrPos(st), "set for every pointer-bearing Go kind, conditioned on the kind only (value merged from the arms of the kind switch)",
+							fmt.Sprintf("MallocAbiType is not set for kinds %v: such values would be placed in memory the GC does not scan (dangling pointers after a collection) and that is not zeroed (absent fields keep garbage)", missing))
+						continue
+					}
+				}
 				var missing []string
 				for n, v := range need {
 					if !have[v] {
